@@ -34,6 +34,7 @@ import (
 	"fmt"
 	"io"
 	"net"
+	"runtime"
 	"sort"
 	"strings"
 	"sync"
@@ -45,7 +46,18 @@ import (
 	"pgregory.net/rapid"
 )
 
-const vfC17Wait = 30 * time.Second // bounded waits; expiry is never a violation by itself
+// bounded waits; expiry is never a violation by itself. After the first expiry in a process (the
+// verdict can no longer be "held") the bound drops so that shrinking stays affordable.
+const vfC17WaitLong = 30 * time.Second
+
+var vfC17ExpiredOnce int32
+
+func vfC17WaitBound() time.Duration {
+	if atomic.LoadInt32(&vfC17ExpiredOnce) != 0 {
+		return 3 * time.Second
+	}
+	return vfC17WaitLong
+}
 
 type vfC17Addr struct{}
 
@@ -187,6 +199,8 @@ type vfC17Rig struct {
 	viols      []vfC17Viol
 	hist       []string
 	acceptErrs int
+	public     bool // changes go through LimitListener.SetMaxConnection (no done channel, as in runtime.reload)
+	baseG      int  // runtime.NumGoroutine() before the case created anything
 
 	stableAccepts, inflightAccepts, heldBackSeen, reuseSeen int
 	peak                                                   int
@@ -278,6 +292,14 @@ func (r *vfC17Rig) setMax(n int) {
 	r.logf("setmax %d->%d (open>=%d, inflight=%d)", ch.old, n, r.counter, r.inflight)
 	r.mu.Unlock()
 
+	if r.public {
+		// exactly the production call; nobody learns when it has been applied, so the epoch stays
+		// "in flight" until the end of the case (only the max-of-all-caps bound and the exact
+		// capacity at quiescence are checked in such a case)
+		ch.seen = true
+		r.ll.SetMaxConnection(uint32(n))
+		return
+	}
 	ch.done = r.ll.sem.SetMaxCount(int64(uint32(n)))
 
 	r.wg.Add(1)
@@ -340,8 +362,9 @@ func (r *vfC17Rig) openIDs() []int {
 
 // waitFor waits (bounded) until pred holds; pred is evaluated under r.mu.
 func (r *vfC17Rig) waitFor(pred func() bool) bool {
-	deadline := time.Now().Add(vfC17Wait)
-	t := time.AfterFunc(vfC17Wait+time.Second, func() {
+	bound := vfC17WaitBound()
+	deadline := time.Now().Add(bound)
+	t := time.AfterFunc(bound+100*time.Millisecond, func() {
 		r.mu.Lock()
 		r.cond.Broadcast()
 		r.mu.Unlock()
@@ -351,6 +374,7 @@ func (r *vfC17Rig) waitFor(pred func() bool) bool {
 	defer r.mu.Unlock()
 	for !pred() {
 		if time.Now().After(deadline) {
+			atomic.StoreInt32(&vfC17ExpiredOnce, 1)
 			return false
 		}
 		r.cond.Wait()
@@ -358,10 +382,11 @@ func (r *vfC17Rig) waitFor(pred func() bool) bool {
 	return true
 }
 
-// mustComplete: implementation knowledge used ONLY to decide what is worth waiting for (expiry is
-// VF-INCONCLUSIVE, never a violation): a grow / same-value change never blocks; a shrink that is
-// the only change still in flight completes once the final cap covers open + pending + the one
-// permit the acceptor may hold.
+// mustComplete: knowledge about reasonable implementations used ONLY to decide what is worth
+// waiting for (expiry is VF-INCONCLUSIVE, never a violation). Only the oldest change still in
+// flight is considered (an implementation may apply changes strictly in call order): a grow or
+// same-value change has nothing to wait for; a shrink that is the only change in flight completes
+// once the final cap covers open + pending + the one permit the acceptor may hold.
 func (r *vfC17Rig) mustComplete() bool {
 	var notDone []*vfC17Change
 	for _, c := range r.changes {
@@ -369,15 +394,13 @@ func (r *vfC17Rig) mustComplete() bool {
 			notDone = append(notDone, c)
 		}
 	}
-	for _, c := range notDone {
-		if c.n >= c.old {
-			return true
-		}
+	if len(notDone) == 0 {
+		return false
 	}
-	if len(notDone) == 1 && r.lastIssued >= r.counter+r.pending()+1 {
+	if head := notDone[0]; head.n >= head.old {
 		return true
 	}
-	return false
+	return len(notDone) == 1 && r.lastIssued >= r.counter+r.pending()+1
 }
 
 type vfC17Outcome int
@@ -424,7 +447,7 @@ func (r *vfC17Rig) quiesce() (bool, string) {
 	r.ll.Close()
 	select {
 	case <-r.acc:
-	case <-time.After(vfC17Wait):
+	case <-time.After(vfC17WaitBound()):
 		return false, "acceptor loop did not return after LimitListener.Close"
 	}
 	r.mu.Lock()
@@ -437,8 +460,21 @@ func (r *vfC17Rig) quiesce() (bool, string) {
 	go func() { r.wg.Wait(); close(wdone) }()
 	select {
 	case <-wdone:
-	case <-time.After(vfC17Wait):
+	case <-time.After(vfC17WaitBound()):
 		return false, "capacity change still not done after every connection was closed"
+	}
+	if r.baseG > 0 {
+		// the only goroutines that can be left are the ones SetMaxCount started; once the count is
+		// back at the baseline no capacity adjustment is pending any more (a completion signal, not
+		// a timing assumption)
+		deadline := time.Now().Add(vfC17WaitBound())
+		for runtime.NumGoroutine() > r.baseG {
+			if time.Now().After(deadline) {
+				atomic.StoreInt32(&vfC17ExpiredOnce, 1)
+				return false, fmt.Sprintf("goroutines started by SetMaxCount still running after every connection was closed (%d > baseline %d)", runtime.NumGoroutine(), r.baseG)
+			}
+			time.Sleep(50 * time.Microsecond)
+		}
 	}
 	return true, ""
 }
@@ -557,10 +593,11 @@ func TestVerifC17Listener(t *testing.T) {
 		for i := range steps {
 			steps[i] = vfC17GenStep(rt, i, cap0)
 		}
-		script := fmt.Sprintf("cap0=%d %v", cap0, steps)
+		public := rapid.IntRange(0, 3).Draw(rt, "viaSetMaxConnection") == 0
+		script := fmt.Sprintf("cap0=%d viaSetMaxConnection=%v %v", cap0, public, steps)
 
 		r := &vfC17Rig{ln: vfC17NewLn(), open: map[int]net.Conn{}, closed: map[int]net.Conn{}, acc: make(chan struct{}),
-			stableCap: cap0, lastIssued: cap0, maxCaps: cap0}
+			stableCap: cap0, lastIssued: cap0, maxCaps: cap0, public: public, baseG: runtime.NumGoroutine()}
 		r.cond = sync.NewCond(&r.mu)
 		r.ll = NewLimitListener(r.ln, uint32(cap0))
 		go r.acceptLoop()
@@ -673,6 +710,11 @@ func TestVerifC17Listener(t *testing.T) {
 
 		// statistics
 		vf.Class(fmt.Sprintf("cap0=%d", cap0))
+		if public {
+			vf.Class("changes-via-SetMaxConnection(no done channel)")
+		} else {
+			vf.Class("changes-via-sem.SetMaxCount(done channel kept)")
+		}
 		if heldBack > 0 {
 			vf.Class("held-back-at-cap")
 		}
@@ -734,7 +776,7 @@ func TestVerifC17Listener(t *testing.T) {
 			}
 		}
 		if expired {
-			rt.Fatalf("VF-INCONCLUSIVE bounded wait (%v) expired: %s\nscript: %s\nhistory: %s", vfC17Wait, why, script, hist)
+			rt.Fatalf("VF-INCONCLUSIVE bounded wait (%v) expired: %s\nscript: %s\nhistory: %s", vfC17WaitLong, why, script, hist)
 		}
 	})
 }
